@@ -472,9 +472,12 @@ func TestCheck(t *testing.T) {
 	rt.Cases(17000, 1700000, func(idx int64) {
 		r := rt.CaseRand(3, idx)
 		rt.Case()
-		if idx%17 < 15 {
+		switch m := idx % 17; {
+		case m < 14:
 			sequential(idx, r)
-		} else {
+		case m == 14:
+			storm(idx, r)
+		default:
 			concurrent(idx, r)
 		}
 	})
